@@ -215,6 +215,100 @@ def d3(ctx, prog):
     return n
 
 
+AXIS_OPS = {'sum', 'nansum', 'mean', 'nanmean', 'cumsum', 'cumprod', 'std', 'nanstd', 'var', 'nanvar', 'max', 'min', 'nanmax', 'nanmin', 'amax', 'amin', 'argmax', 'argmin',
+            'diff', 'median', 'sort', 'argsort', 'roll', 'flip', 'rfft', 'fft', 'ifft', 'irfft', 'prod', 'all', 'any', 'ptp', 'average', 'gradient', 'lfilter', 'convolve'}
+MOVERS = {'swapaxes', 'moveaxis'}
+
+
+def d4(ctx, prog):
+    """axis-parameter discipline: in a function that takes an `axis` parameter, an operation that works along one axis of the
+    data either receives that parameter, or works along a literal axis k of an array into which the requested axis was moved
+    (`swapaxes(data, k, axis)` / `moveaxis(data, axis, k)`).  A literal axis on the data as given means the operation runs along
+    that fixed axis whatever the caller asked for."""
+    n = 0
+    for modname in MODS + ['scared.signal_processing.filters', 'scared.signal_processing.frequency_analysis']:
+        if modname not in prog.mods:
+            continue
+        for f in prog.funcs_in(modname):
+            if f.parent is not None or 'axis' not in f.params or prog.numba_kind(f)[0]:
+                continue
+            g = inline.inlined(prog, f, skip={'_moving_argument_check', '_check_and_cast_args', '_butterworth_args_check'})
+            dparam = next((p for p in g.params if p not in ('self', 'axis')), None)
+            if dparam is None:
+                continue
+            state = {dparam: 'given'}      # name -> 'given' | ('moved', k) | None
+            for st in astutil.stmts_of(g.node):
+                # judge uses in this statement first
+                for c in ast.walk(st):
+                    if not isinstance(c, ast.Call):
+                        continue
+                    name = norm(c.func).split('.')[-1]
+                    if name not in AXIS_OPS:
+                        continue
+                    if isinstance(c.func, ast.Attribute) and not norm(c.func.value) in ('_np', 'np', 'numpy', '_np.fft', '_signal', 'signal'):
+                        arr, rest = c.func.value, c.args
+                    else:
+                        arr, rest = (c.args[-1] if name == 'lfilter' and len(c.args) >= 3 else (c.args[0] if c.args else None)), c.args[1:]
+                    names = [x.id for x in ast.walk(arr) if isinstance(x, ast.Name)] if arr is not None else []
+                    sts = [state.get(x) for x in names if x in state]
+                    if not sts:
+                        continue
+                    ax = next((k.value for k in c.keywords if k.arg == 'axis'), None)
+                    if ax is None and name == 'lfilter' and len(c.args) >= 4:
+                        ax = c.args[3]
+                    if ax is None:
+                        continue          # whole-array operation or default axis: not an axis-wise operation on a chosen axis
+                    n += 1
+                    key = f'{f.key}::{norm(c)[:80]}'
+                    lit = astutil.const_value_(ax)
+                    if norm(ax) == 'axis':
+                        if all(s_ == 'given' for s_ in sts):
+                            ctx.ok('C19-D4', key, 'works along the requested axis', f.where(c))
+                        else:
+                            ctx.undecided('C19-D4', key, 'the axis parameter is applied to an array whose axes were already permuted', f.where(c))
+                    elif isinstance(lit, int):
+                        if all(isinstance(s_, tuple) and s_[1] == lit for s_ in sts):
+                            ctx.ok('C19-D4', key, f'works along axis {lit}, where the requested axis was moved', f.where(c))
+                        elif any(s_ == 'given' for s_ in sts):
+                            ctx.fail('C19-D4', key, f'`{norm(c)[:70]}` works along the fixed axis {lit} of the data as given: the result ignores the `axis` argument (wrong for any other axis of n-D data)', f.where(c))
+                        else:
+                            ctx.undecided('C19-D4', key, f'literal axis {lit} on an array whose layout is not tracked', f.where(c))
+                # then the effect of the statement on the layout states
+                if isinstance(st, ast.Assign) and len(st.targets) == 1 and isinstance(st.targets[0], ast.Name):
+                    v = st.value
+                    tgt = st.targets[0].id
+                    new = None
+                    if isinstance(v, ast.Call) and norm(v.func).split('.')[-1] in MOVERS:
+                        args = list(v.args)
+                        arr = v.func.value if isinstance(v.func, ast.Attribute) and not norm(v.func.value) in ('_np', 'np', 'numpy') else (args.pop(0) if args else None)
+                        src = [state.get(x.id) for x in ast.walk(arr) if isinstance(x, ast.Name) and x.id in state] if arr is not None else []
+                        if src and len(args) == 2:
+                            a_, b_ = args
+                            mv = norm(v.func).split('.')[-1]
+                            la, lb = astutil.const_value_(a_), astutil.const_value_(b_)
+                            if all(s_ == 'given' for s_ in src):
+                                if mv == 'swapaxes' and norm(b_) == 'axis' and isinstance(la, int):
+                                    new = ('moved', la)
+                                elif mv == 'swapaxes' and norm(a_) == 'axis' and isinstance(lb, int):
+                                    new = ('moved', lb)
+                                elif mv == 'moveaxis' and norm(a_) == 'axis' and isinstance(lb, int):
+                                    new = ('moved', lb)
+                            elif all(isinstance(s_, tuple) for s_ in src):
+                                k_ = src[0][1]
+                                if (mv == 'swapaxes' and {norm(a_), norm(b_)} == {'axis', str(k_)}) or (mv == 'moveaxis' and norm(b_) == 'axis' and la == k_):
+                                    new = 'given'
+                        state[tgt] = new
+                    else:
+                        src = [state.get(x.id) for x in ast.walk(v) if isinstance(x, ast.Name) and x.id in state]
+                        src = [s_ for s_ in src if s_ is not None]
+                        is_red = isinstance(v, ast.Call) and norm(v.func).split('.')[-1] in AXIS_OPS and norm(v.func).split('.')[-1] not in ('cumsum', 'cumprod', 'roll', 'flip', 'sort', 'diff', 'lfilter')
+                        if src and len(set(map(str, src))) == 1 and not is_red:
+                            state[tgt] = src[0]
+                        elif tgt in state:
+                            state[tgt] = None
+    return n
+
+
 def run(ctx, prog):
     ctx.rule('C19-D1', 'peak filter: candidate positions never overwritten, no possibly-negative sentinel used as position/index, returns a selection of the candidates')
     ctx.rule('C19-D2', 'powers/products of array parameters happen after the float64 cast')
@@ -224,4 +318,6 @@ def run(ctx, prog):
     n2 = d2(ctx, prog)
     n3 = d3(ctx, prog)
     ctx.floor('power/product sinks on parameters', n2, 6)
+    ctx.rule('C19-D4', 'axis-parameter discipline: axis-wise operations receive the axis parameter, or a literal axis k of an array into which the requested axis was moved')
+    ctx.floor('axis-wise operations judged', d4(ctx, prog), 2)
     ctx.floor('in-place effects judged', n3, 2)
